@@ -535,8 +535,17 @@ inductive DAct where
   | create
   /-- `none`: the admin renounces -/
   | changeAdmin (newAdmin : Option Addr)
-  /-- any other admin-gated write: Mint / Burn / SetDenomMetadata / SetERC20ToTokenDenom -/
+  /-- any other admin-gated write: Mint / Burn / SetERC20ToTokenDenom -/
   | write
+  /-- `SetDenomMetadata` and the wasm binding `set_metadata`.  The bank record is keyed by
+      `metadata.base`; `MsgSetDenomMetadata` has no other denom field (the handler looks the admin
+      up under `metadata.base`, so `base = some m.denom`), the binding message carries BOTH a
+      `denom` (whose admin is compared with the contract) and a `metadata.base` (`none` = "": the
+      binding fills in `denom`; `some b`: the denom spelled there, which may be another one) -/
+  | setMeta (base : Option Nat)
+  /-- the wasm binding `create_denom` carrying `metadata`: `CreateDenom` followed by
+      `PerformSetMetadata(newDenom, metadata)` in the same (atomic) contract call -/
+  | createMeta (base : Option Nat)
 deriving Repr, DecidableEq
 
 structure DMsg where
@@ -549,9 +558,13 @@ structure DState where
   /-- `none`: the denom does not exist (no bank metadata; `validateCreateDenom` refuses a second
       creation); `some a`: it exists and `DenomAuthorityMetadata.Admin` is `a` (`none` = "") -/
   den : Nat → Option (Option Addr)
-  /-- abstraction of supply / metadata / bridge binding: number of admin-gated writes so far -/
+  /-- abstraction of supply / bridge binding: number of admin-gated writes so far -/
   writes : Nat → Nat
   grants : Addr → Addr → Bool
+  /-- the bank's metadata record of the denom: 0 = the default record `createDenomAfterValidation`
+      writes (or no record: the denom does not exist), n > 0 = the n-th custom record an admin set
+      since -/
+  dmeta : Nat → Nat := fun _ => 0
 
 /-- the decorator's check for a denom message (same rule as `anteOk`) -/
 def dAnteOk (m : DMsg) (g : Addr → Addr → Bool) : Bool :=
@@ -573,6 +586,21 @@ def dHandle (namer : Nat → Addr) (s : DState) (m : DMsg) : Option DState :=
     if s.den m.denom = some (some m.creator) then
       some { s with writes := setAt s.writes m.denom (s.writes m.denom + 1) }
     else none
+  | .setMeta base =>
+    -- `PerformSetMetadata`: admin of `denom`; "Base must be the same as denom"; the record is
+    -- written under the key `metadata.base`
+    if s.den m.denom = some (some m.creator) then
+      if base.getD m.denom = m.denom then
+        some { s with dmeta := setAt s.dmeta (base.getD m.denom) (s.dmeta (base.getD m.denom) + 1) }
+      else none
+    else none
+  | .createMeta base =>
+    if s.den m.denom = none ∧ namer m.denom = m.creator then
+      if base.getD m.denom = m.denom then
+        some { s with den := setAt s.den m.denom (some (some m.creator)),
+                      dmeta := setAt s.dmeta (base.getD m.denom) 1 }
+      else none
+    else none
 
 def dAccepted (namer : Nat → Addr) (s : DState) (m : DMsg) : Bool :=
   dAnteOk m s.grants && (dHandle namer s m).isSome
@@ -584,8 +612,12 @@ def dDeliver (namer : Nat → Addr) (s : DState) (m : DMsg) : DState :=
     | none => s
     | some s' => s'
 
-/-- everything the chain keeps for denom `d` -/
+/-- what the chain keeps for denom `d` apart from the bank's metadata record: existence, admin,
+    supply / bridge bindings -/
 def dView (s : DState) (d : Nat) : Option (Option Addr) × Nat := (s.den d, s.writes d)
+
+/-- everything the chain keeps for denom `d`, the bank's metadata record included -/
+def dFull (s : DState) (d : Nat) : (Option (Option Addr) × Nat) × Nat := (dView s d, s.dmeta d)
 
 /-- the principal denom `d`'s state is attributed to: its current admin; before it exists, the
     account it is named after; `none`: renounced -/
@@ -594,19 +626,32 @@ def dOwner (namer : Nat → Addr) (s : DState) (d : Nat) : Option Addr :=
   | none => some (namer d)
   | some a => a
 
+/-- A chain export followed by an import of the token factory's genesis
+    (`x/tokenfactory/keeper/genesis.go`): `ExportGenesis` lists every denom with its authority
+    metadata; `InitGenesis` runs, per exported denom, `createDenomAfterValidation` (default bank
+    record, admin := the account in the name) and THEN `setAuthorityMetadata` with the exported
+    admin — so who controls a denom (handed over or renounced) survives, and so do supply and bridge
+    bindings (bank / skyway state).  The custom bank record an admin had set does NOT: it is replaced
+    by the default one (as built; the same observation as C16 `reimport_resets_custom_metadata`). -/
+def dReimport (s : DState) : DState :=
+  { s with dmeta := fun d => if (s.den d).isSome then 0 else s.dmeta d }
+
 inductive DOp where
   | grant (granter grantee : Addr)
   | revoke (granter grantee : Addr)
   | msg (m : DMsg)
+  /-- no transaction at all: the chain is exported and started again from the export -/
+  | reimport
 
 def dStep (namer : Nat → Addr) (s : DState) : DOp → DState
   | .grant a b => { s with grants := setGrant s.grants a b true }
   | .revoke a b => { s with grants := setGrant s.grants a b false }
   | .msg m => dDeliver namer s m
+  | .reimport => dReimport s
 
 def dRun (namer : Nat → Addr) (s : DState) (ops : List DOp) : DState := ops.foldl (dStep namer) s
 
-def dInit : DState := { den := fun _ => none, writes := fun _ => 0, grants := fun _ _ => false }
+def dInit : DState := { den := fun _ => none, writes := fun _ => 0, grants := fun _ _ => false, dmeta := fun _ => 0 }
 
 /-! ## Batch confirmations
 
@@ -831,6 +876,12 @@ def lStep (F : Addr) (s : LState) : LOp → LState
   | .msg now m => lDeliver F now s m
 
 def lRun (F : Addr) (s : LState) (ops : List LOp) : LState := ops.foldl (lStep F) s
+
+/-- A chain export followed by an import of the paloma module's genesis (`x/paloma/genesis.go`):
+    `ExportGenesis` lists every pending licence and every client record (and the feegranter / funders
+    configuration), `InitGenesis` stores each of them again under its client address; fee grants are
+    x/feegrant's own genesis.  Nothing the model keeps changes — no transaction of anybody. -/
+def lReimport (s : LState) : LState := s
 
 /-- no records, no licences, no grants; `accounts` exist already -/
 def lInit (accounts : List Addr) : LState :=
